@@ -16,8 +16,7 @@ def kv? (s : String) : Option (String × String) :=
 def lookup (kvs : List (String × String)) (k : String) : Option String :=
   (kvs.find? (·.1 == k)).map (·.2)
 
-def parseIn? (s : String) : Option Inp :=
-  let s := if s.endsWith "!" then (s.dropEnd 1).toString else s
+def parseInBase? (s : String) : Option Inp :=
   match s.toList with
   | 'u' :: rest =>
     match (String.ofList rest).splitOn ":" with
@@ -26,22 +25,40 @@ def parseIn? (s : String) : Option Inp :=
       let v ← v.toNat?
       let h ← h.toInt?
       let cb ← parseBool? cb
-      pure ⟨OutPoint.u k, some ⟨v, h, cb⟩⟩
+      pure { op := OutPoint.u k, chain := some { value := v, height := h, coinbase := cb } }
+    | [k, v, h, cb, m] => do
+      let k ← k.toNat?
+      let v ← v.toNat?
+      let h ← h.toInt?
+      let cb ← parseBool? cb
+      let m ← m.toInt?
+      pure { op := OutPoint.u k, chain := some { value := v, height := h, coinbase := cb, mtpPrev := m } }
     | _ => none
   | 'g' :: rest => do
     let k ← (String.ofList rest).toNat?
-    pure ⟨OutPoint.u k, none⟩
+    pure { op := OutPoint.u k, chain := none }
   | 'x' :: rest => do
     let k ← (String.ofList rest).toNat?
-    pure ⟨OutPoint.x k, none⟩
+    pure { op := OutPoint.x k, chain := none }
   | 'p' :: rest =>
     match (String.ofList rest).splitOn "." with
     | [j, i] => do
       let j ← j.toNat?
       let i ← i.toNat?
-      pure ⟨OutPoint.p j i, none⟩
+      pure { op := OutPoint.p j i, chain := none }
     | _ => none
-  | ['c'] => some ⟨OutPoint.null, none⟩
+  | ['c'] => some { op := OutPoint.null, chain := none }
+  | _ => none
+
+/-- input token: `<ref>[~<sequence>][!]` -/
+def parseIn? (s : String) : Option Inp :=
+  let s := if s.endsWith "!" then (s.dropEnd 1).toString else s
+  match s.splitOn "~" with
+  | [r] => parseInBase? r
+  | [r, q] => do
+    let i ← parseInBase? r
+    let q ← q.toNat?
+    pure { i with sequence := q }
   | _ => none
 
 def parseOut? (s : String) : Option Out :=
@@ -69,7 +86,11 @@ def parseLock? (s : String) : Option (Nat × Bool) :=
 
 def parseTx? (s : String) : Option Tx :=
   match s.splitOn "/" with
-  | [ins, outs, lock, fee, fpk, prio, wt, sc, hw, so] => do
+  | ins :: outs :: lock :: fee :: fpk :: prio :: wt :: sc :: hw :: so :: ver => do
+    let ver ← match ver with
+      | [] => some 1
+      | [v] => v.toNat?
+      | _ => none
     let ins ← (ins.splitOn "+").mapM parseIn?
     let outs ← if outs == "-" then some [] else (outs.splitOn "+").mapM parseOut?
     let (lt, am) ← parseLock? lock
@@ -81,7 +102,7 @@ def parseTx? (s : String) : Option Tx :=
     let hw ← parseBool? hw
     let so ← parseBool? so
     pure { ins := ins, outs := outs, lockTime := lt, allSeqMax := am, fee := fee, feePerKB := fpk,
-           prio := prio, weight := wt, sigCost := sc, hasWitness := hw, scriptsOk := so }
+           prio := prio, weight := wt, sigCost := sc, hasWitness := hw, scriptsOk := so, version := ver }
   | _ => none
 
 def parseEnv? (kvs : List (String × String)) : Option Env := do
